@@ -76,6 +76,31 @@ Fixpoint expand (fuel : nat) (ds : list tdef) (is_seq : bool) (items : list cite
 Definition expanded_members (ds : list tdef) (n : str) : option (list str) :=
   option_map (fun d => expand (length ds) ds (t_is_seq d) (t_items d)) (find_def n ds).
 
+(* ---- where the copied components go when the including type has an extension marker: each one is inserted at the
+        index of the first addition, which then moves up by one (link_components_of_notation; without a marker they are
+        appended) ---- *)
+Definition insert_copied (st : list str * option nat) (m : str) : list str * option nat :=
+  let '(ms, e) := st in
+  match e with
+  | Some k => (firstn k ms ++ m :: skipn k ms, Some (S k))
+  | None => (ms ++ [m], None)
+  end.
+
+Definition link_insert (members : list str) (ext : option nat) (copied : list str) : list str * option nat :=
+  fold_left insert_copied copied (members, ext).
+
+(* names with their addition flag: position >= index of the first addition *)
+Fixpoint flag_from (e : option nat) (i : nat) (l : list str) : list (str * bool) :=
+  match l with
+  | [] => []
+  | x :: r => (x, match e with Some k => Nat.leb k i | None => false end) :: flag_from e (S i) r
+  end.
+
+(* the fields of the linked type with their addition flag: own components before / after the marker, copied root components *)
+Definition link_marked (own_root own_adds copied : list str) (marker : bool) : list (str * bool) :=
+  let '(ms, e) := link_insert (own_root ++ own_adds) (if marker then Some (length own_root) else None) copied in
+  flag_from e 0 ms.
+
 (* ---- the shape of COMPONENTS OF chains the pass is proved right for (Proofs/C09Chain.v) ---- *)
 (* the COMPONENTS OF entries of a definition come last *)
 Definition trailing (d : tdef) : Prop :=
